@@ -50,9 +50,10 @@ def _alarm(signum, frame):
 def reset_globals():
     """Every history starts from the same values of UFL's global counters."""
     from ufl.classes import Coefficient, Constant, Index, Label
+    from ufl.core.base_form_operator import BaseFormOperator
     from ufl.matrix import Matrix
 
-    for cls in (Coefficient, Constant, Index, Label, Matrix):
+    for cls in (Coefficient, Constant, Index, Label, Matrix, BaseFormOperator):
         cls._counter = itertools.count(0)
     ufl.Mesh._ufl_global_id = 0
     ufl.domain.MeshView._ufl_global_id = 0
@@ -197,7 +198,10 @@ def compare(pre, post, same_exec=False):
     for i, a in enumerate(pre.objs):
         if a is None:
             continue
-        b = post.objs[i]
+        b = post.objs[i] if i < len(post.objs) else None
+        if b is None or b.kind != a.kind:
+            changed.append(f"obj{i}.not-reproduced")
+            continue
         d = S.diff(a, b, same_exec)
         if not d and b.fresh is None:
             b.fresh = a.fresh
@@ -207,6 +211,9 @@ def compare(pre, post, same_exec=False):
         changed += [f"obj{i}.{x}" for x in d]
     for i, ss in enumerate(pre.secs):
         for k, a in enumerate(ss):
+            if i >= len(post.secs) or k >= len(post.secs[i]) or post.secs[i][k].kind != a.kind:
+                changed.append(f"sec{i}.not-reproduced")
+                continue
             b = post.secs[i][k]
             changed += [f"sec{i}.{x}" for x in S.diff(a, b, same_exec)]
     for k, v in pre.watch.items():
@@ -249,11 +256,9 @@ def confirm(name, chain, verbose=False):
 
 # -------------------------------------------------------------------------------------------------
 CORE3 = (
-    "cfd_default",
     "cfd_ffcx",
     "attach_estimated_degrees",
     "apply_integral_scaling",
-    "expand_derivatives",
     "replace",
     "derivative",
     "signature",
@@ -262,7 +267,6 @@ CORE3 = (
     "eq_clone",
     "measure_reconf",
     "integral_reconstruct",
-    "integral_to_form",
     "action_identity",
     "bf_action",
     "bf_arith",
@@ -270,7 +274,6 @@ CORE3 = (
     "op_abs",
     "op_arith",
     "integrate",
-    "sorted_expr",
 )
 
 
@@ -336,7 +339,12 @@ def explore(name, chain, pre, plan, part):
     part.inc("evaluations", sum(1 for o in post.objs if o is not None) + sum(len(s) for s in post.secs))
     # sharing statistics (non-vacuity): does the new result alias caller-owned / earlier data?
     if h.objs[-1] is not None and S.kind_of(h.objs[-1]) in ("form", "integral"):
-        mds = {id(i._metadata) for o in h.objs[:-1] if o is not None and S.kind_of(o) != "expr" for i in EV.integrals_of(o)}
+        mds = {
+            id(i._metadata)
+            for o in h.objs[:-1]
+            if o is not None and S.kind_of(o) in ("form", "integral")
+            for i in EV.integrals_of(o)
+        }
         if any(id(i._metadata) in mds for i in EV.integrals_of(h.objs[-1])):
             part.count("result_shares_metadata_dict_with_earlier_object")
     changed = compare(pre, post)
@@ -368,6 +376,9 @@ TIMES = {}
 
 
 def work(items):
+    import warnings
+
+    warnings.simplefilter("ignore")  # UFL's informational UserWarnings (metadata str(), missing degree handlers)
     part = Part()
     signal.signal(signal.SIGALRM, _alarm)
     for name, e1 in items:
@@ -434,6 +445,9 @@ def main(argv):
 
 
 def replay(run):
+    import warnings
+
+    warnings.simplefilter("ignore")
     signal.signal(signal.SIGALRM, _alarm)
     with open(run.args.replay) as f:
         w = json.load(f)["witness"]
